@@ -460,8 +460,11 @@ fn compare(exp: &Value, real: &Value, log: &[Value]) -> (Vec<String>, Vec<String
         .chain(log.iter().enumerate().filter(|(_, e)| e["out"] == "applied").map(|(i, _)| i + 1))
         .collect();
     let real_surv: Vec<usize> = real["survivors"].as_array().unwrap().iter().map(|v| v.as_u64().unwrap() as usize).collect();
+    // Which changes stay in the history is not part of the C04 statement (a refused change that had
+    // no effect on the object may as well be kept): informational. If keeping/pruning matters, the
+    // descendants of the change (skipped in the model) show up in the object.
     if exp_surv != real_surv {
-        gate.push(format!("surviving changes: model {exp_surv:?} real {real_surv:?}"));
+        drift.push(format!("surviving changes: model {exp_surv:?} real {real_surv:?}"));
     }
     (gate, drift)
 }
@@ -506,6 +509,7 @@ fn replay(world: &Value, cases: &[Value], out: &mut Out, dir: &Path) -> Value {
     let mut drifts = 0usize;
     let mut nontrivial = 0usize;
     let mut stmt_checks = 0usize;
+    let mut step_checks = 0usize;
     // real projections by history, to check the step clauses of the statement on linear extensions
     let mut seen: HashMap<String, Value> = HashMap::new();
     // shorter histories first so that the predecessor of a linear extension is known
@@ -531,10 +535,21 @@ fn replay(world: &Value, cases: &[Value], out: &mut Out, dir: &Path) -> Value {
         stmt_checks += 1;
         // step clauses on linear extensions (the previous history is a prefix evaluated earlier)
         if let Some(last) = log.last() {
-            if last["step"] == "lin" || last["step"] == "skip" {
+            // (the history without its last change is complete, and its evaluation is the state in
+            // which the last change is evaluated, unless that change is in or closes branch X)
+            let x_open = log[..log.len() - 1].iter().rev().find(|e| e["step"] != "skip").map(|e| e["step"] == "forkx" || e["step"] == "x").unwrap_or(false);
+            if !x_open && last["step"] != "forkx" {
                 let prev_key = shape(&log[..log.len() - 1]);
+                if !seen.contains_key(&prev_key) {
+                    // the predecessor was not among the (sampled) cases: evaluate it now
+                    w.set_tips(&log, &oids, log.len() - 1);
+                    if let Ok(p) = w.evaluate(&oids, log.len() - 1, init) {
+                        seen.insert(prev_key.clone(), p);
+                    }
+                }
                 if let Some(prev) = seen.get(&prev_key) {
                     stmt.extend(step_clauses(prev, &real, last, world));
+                    step_checks += 1;
                 }
             }
         }
@@ -556,7 +571,7 @@ fn replay(world: &Value, cases: &[Value], out: &mut Out, dir: &Path) -> Value {
         }
     }
     json!({"cases": cases.len(), "failures": failures, "drift": drifts, "nontrivial": nontrivial,
-           "commits": w.commits, "evaluations": w.evals, "statement_checks": stmt_checks})
+           "commits": w.commits, "evaluations": w.evals, "statement_checks": stmt_checks, "step_checks": step_checks})
 }
 
 /// C04 clauses 2 and 3 on one linear step prev -> next made by `entry`.
